@@ -13,7 +13,7 @@ From AV Require Import Base.Bytes Base.Outcome Hash.HashModel Tree.Heap Tree.Ops
   Tree.CopyProofsTiny Tree.Frame Tree.CopyProofsReg Tree.CopyProofsFK Tree.CopyProofsDup Tree.CopyProofsRegId.
 From AV Require Import Tree.Serialize Tree.Script2 Tree.CopyProofsIrp Tree.CopyProofsIndep Tree.CopyProofsIndep2
   Tree.CopyProofsTwo Tree.CopyProofsUnique Tree.CopyProofsText Tree.CopyProofsBound Tree.CopyProofsDupText
-  Tree.CopyProofsDupAll Tree.CopyProofsDupSplit.
+  Tree.CopyProofsDupAll Tree.CopyProofsDupSplit Tree.CopyProofsDupExample.
 Open Scope list_scope.
 Open Scope N_scope.
 
@@ -574,4 +574,25 @@ Theorem C13_duplicate_text_split :
       ser_heap T tab_el tab_at tab_en float_fmt fuel w' (Some f) (m_root x) indent inline =
       ser_heap T tab_el tab_at tab_en float_fmt fuel w' (Some nf) (w_next w) indent inline.
 Proof. exact duplicate_text_split_top. Qed.
+
+(* NON-VACUITY of C13_duplicate_text_split (and of C13_duplicate_text, its special case): a concrete SPLIT two-file model
+   on the tiny table set, reached by a script from the empty world (Tree/CopyProofsDupExample.v: files "f" and "g" of
+   version 2, PKGS / PKG "p" / ELEMENTS / HOLDER "h" with A-PROPS and B-PROPS, package "p" restricted to file "f"),
+   meets every hypothesis; duplicate() succeeds on it (model 1, root node 9), so for each of its two files there is a
+   file of the duplicate with the same name and byte-identical text *)
+Theorem C13_duplicate_text_example_world :
+  Inv.run_ops Tiny13.tiny Tiny13.el Tiny13.el Tiny13.check_fn Tiny13.LATEST [] ex_script Inv.empty_world = Val ex_w /\
+  m_duplicate Tiny13.tiny Tiny13.el Tiny13.el Tiny13.check_fn Tiny13.LATEST [] 0 ex_w = Val (OK 1, ex_w') /\
+  (m_root ex_x = 0 /\ w_next ex_w = 9 /\ m_files ex_x = [0; 1]) /\
+  exists a b, nth_opt (w_files ex_w) 0 = Some a /\ nth_opt (w_files ex_w) 1 = Some b /\ f_name a <> f_name b /\
+    exists n2, w_nodes ex_w 2 = Some n2 /\ n_files n2 = [0].
+Proof. exact (conj ex_reached (conj ex_dup (conj ex_x_root ex_files))). Qed.
+
+Theorem C13_duplicate_text_example : forall (tab_at : HashModel.nametab) (float_fmt : N -> list N) f fl,
+  In f (m_files ex_x) -> nth_opt (w_files ex_w) (N.to_nat f) = Some fl ->
+  exists nf nfl, nth_opt (w_files ex_w') (N.to_nat nf) = Some nfl /\ f_name nfl = f_name fl /\ f_model nfl = 1 /\
+    forall fuel indent inline,
+      ser_heap Tiny13.tiny Tiny13.el tab_at Tiny13.el float_fmt fuel ex_w' (Some f) (m_root ex_x) indent inline =
+      ser_heap Tiny13.tiny Tiny13.el tab_at Tiny13.el float_fmt fuel ex_w' (Some nf) (w_next ex_w) indent inline.
+Proof. exact duplicate_text_example. Qed.
 
